@@ -161,6 +161,14 @@ func HandleInviteV3(ctx context.Context, input HandleInviteV3Input) (PDU, error)
 }
 
 func handleInviteCommonChecks(ctx context.Context, input HandleInviteInput, event PDU, sender spec.UserID) (PDU, error) {
+	// Only ever return (and thereby counter-sign) a genuine invite.
+	if event.Type() != spec.MRoomMember {
+		return nil, spec.BadJSON("The event JSON must be an m.room.member event")
+	}
+	if membership, err := event.Membership(); err != nil || membership != spec.Invite {
+		return nil, spec.BadJSON("The event JSON must have membership 'invite'")
+	}
+
 	isKnownRoom, err := input.RoomQuerier.IsKnownRoom(ctx, input.RoomID)
 	if err != nil {
 		util.GetLogger(ctx).WithError(err).Error("failed querying known room")
